@@ -418,8 +418,8 @@ def group_defs(draw, labels=(1, 2, 3, 4, 5, 6, 9, 10, 11, 17, 19, 33, 200), max_
     for i in range(ng):
         if not perm:
             break
-        kind = draw(st.sampled_from(["plain", "plain", "merge", "single"]))
-        k = 1 if kind == "single" else draw(st.integers(1, max(1, min(3, len(perm) - (ng - i - 1)))))
+        kind = draw(st.sampled_from(["plain", "plain", "plain", "merge", "merge", "single", "single", "merge_single"]))
+        k = 1 if kind in ("single", "merge_single") else draw(st.integers(1, max(1, min(3, len(perm) - (ng - i - 1)))))
         labs, perm = perm[:k], perm[k:]
         groups.append({"name": nms[i], "labels": sorted(labs), "kind": kind})
     return groups
